@@ -30,7 +30,30 @@ def make_scratch(edits, patch=None):
     return d
 
 
-def run_checks(scratch, props, lane, tier="quick"):
+MACRO_DIRS = ("packages/ec-macros", "packages/push-macros")
+
+
+def touch_macros(scratch):
+    """rsync -a keeps /repo's old mtimes, so cargo would take a proc-macro artifact built from a
+    previous mutant in this lane for fresh; bump the mtimes to force a rebuild."""
+    now = time.time()
+    for d in MACRO_DIRS:
+        for root, _, files in os.walk(os.path.join(scratch, d)):
+            for f in files:
+                os.utime(os.path.join(root, f), (now, now))
+
+
+def run_checks(scratch, props, lane, tier="quick", entry=None):
+    work0 = os.path.join(VERIF, ".work", "lane%d" % lane)
+    os.makedirs(work0, exist_ok=True)
+    marker = os.path.join(work0, "macros_dirty")
+    edits_macros = any(e["file"].startswith(MACRO_DIRS) for e in (entry or {}).get("edits", [])) or bool((entry or {}).get("patch"))
+    if edits_macros or os.path.exists(marker):
+        touch_macros(scratch)
+    if edits_macros:
+        open(marker, "w").write("1")
+    elif os.path.exists(marker):
+        os.remove(marker)
     env = dict(os.environ)
     env["UEC_REPO"] = scratch
     work = os.path.join(VERIF, ".work", "lane%d" % lane)
@@ -93,7 +116,7 @@ def one(entry, lane, keep=False):
     except Exception as e:
         return entry["id"], False, "SETUP: %s" % e, {}
     try:
-        res = run_checks(d, entry["props"], lane)
+        res = run_checks(d, entry["props"], lane, entry=entry)
         ok, text = judge(entry, res)
         return entry["id"], ok, text + " (%.0fs)" % (time.time() - t0), res
     finally:
